@@ -366,9 +366,33 @@ def c14_pairs(ctx):
     return c
 
 
+def c14_lookahead_errors(ctx):
+    """errors raised inside and around look-ahead: an error-producing construct, then tag / comment / blank
+    lines, then a tag line with whitespace (reported during the look-ahead and again when it is matched)"""
+    pre = ["Feature: f\n  Scenario: s\n    Given g\n      | a | b |\n      | c |\n",
+           "Feature: f\n  Scenario Outline: o\n    Given <a>\n    Examples:\n      | a |\n      | 1 | 2 |\n",
+           "Feature: f\n  Scenario: s\n    Given g\n",
+           "Feature: f\n  Rule: r\n  Background:\n    Given b\n      | x |\n      | y | z |\n",
+           "Feature: f\n  Scenario: s\n    Given g\n    oops unexpected\n"]
+    mids = [[], ["  @ok"], ["  @ok", "  # c"], ["", "  @ok1 @ok2", ""], ["  # c"], ["  @ok", "  @also"]]
+    bads = ["  @bad tag", "  @a @b c", "@x y @z"]
+    posts = ["  Scenario: t\n    Given h\n", "  Examples:\n    | a |\n", "  Rule: r2\n", "", "  @ok\n  Scenario: u\n", "  @bad tag\n  Scenario: v\n"]
+    srcs = []
+    for a in pre:
+        for m in mids:
+            for b in bads:
+                for p_ in posts:
+                    srcs.append(a + "".join(x + "\n" for x in m) + b + "\n" + p_)
+    return e2e("errors-around-look-ahead", srcs, P.p_errors, modes=(False, True), nontrivial=nt_rejected, exhaustive=True)
+
+
 def o_c14(ctx):
     impl = impl_mod()
     srcs = S.mutated_sources(S.n_for(600, 10000), salt="c14/o") + [s for d, _, s in S.corpus() if d == "bad"]
+    for a in ("Feature: f\n  Scenario: s\n    Given g\n      | a | b |\n      | c |\n", "Feature: f\n  Scenario: s\n    Given g\n"):
+        for m in ("", "  @ok\n", "  @ok\n  # c\n\n"):
+            for b in ("  @bad tag\n", "  @a @b c\n  @bad tag\n"):
+                srcs.append(a + m + b + "  Scenario: t\n")
 
     def check(src):
         a = impl.parse(False, "en", src)
@@ -400,7 +424,7 @@ def o_c14(ctx):
     return oracle("error-mode-relations", srcs, check)
 
 
-prop("C14", streams=[lambda ctx: P.regression_stream("C14"), P.stub_probe, c14_pairs,
+prop("C14", streams=[lambda ctx: P.regression_stream("C14"), P.stub_probe, c14_pairs, c14_lookahead_errors,
                      std_e2e("C14", P.p_errors, ngen=(100, 1000), nmut=(600, 12000), modes=(False, True), nontrivial=nt_rejected), o_c14],
      sources=TABLE_SOURCES,
      rule="error list (location, message) and stop-mode error, model vs implementation: every (state, kind) pair as real text, malformed documents, bad corpus; "
@@ -1116,7 +1140,19 @@ def o_c18(ctx):
             return None
     srcs = P.corpus_sources() + [s for s, _ in S.gen_sources(S.n_for(300, 5000), salt="c18/d")] + S.mutated_sources(S.n_for(300, 5000), salt="c18/dm")
 
+    ABORT = "Feature: f\n  Scenario: s\n    Given g\n      | a | b |\n      | c |\n  @tag\n  # c\n  Scenario: t\n    Given h\n"
+    counter = [0]
+
     def check_d(src):
+        counter[0] += 1
+        if counter[0] % 7 == 0:
+            # an earlier parse on another parser aborted while look-ahead tokens were queued
+            pa = Parser(impl.AstBuilder())
+            pa.stop_at_first_error = True
+            try:
+                pa.parse(impl.StringScanner(ABORT), TokenMatcher("en"))
+            except impl.ParserException:
+                pass
         b = Rec()
         p = Parser(b)
         errs = []
